@@ -78,8 +78,8 @@ impl Scenario for Forward {
 
     fn budget(&self, tier: Tier) -> u64 {
         match tier {
-            Tier::Quick => 20_000,
-            Tier::Thorough => 1_500_000,
+            Tier::Quick => 50_000,
+            Tier::Thorough => 2_500_000,
         }
     }
 
